@@ -8,6 +8,7 @@ import (
 	"errors"
 	"strconv"
 	"strings"
+	"time"
 
 	record "github.com/libp2p/go-libp2p-record"
 )
@@ -48,6 +49,17 @@ func (SeqValidator) Validate(key string, value []byte) error {
 	payload := string(value)[strings.IndexByte(string(value), ':')+1:]
 	if strings.HasPrefix(payload, "bad") {
 		return errors.New("seqvalidator: invalid payload")
+	}
+	if strings.HasPrefix(payload, "until=") {
+		// valid only until a (virtual) instant, like an IPNS record's EOL
+		t := payload[6:]
+		if i := strings.IndexByte(t, '|'); i >= 0 {
+			t = t[:i]
+		}
+		ns, err := strconv.ParseInt(t, 10, 64)
+		if err != nil || time.Now().UnixNano() > ns {
+			return errors.New("seqvalidator: record past its end of life")
+		}
 	}
 	if strings.HasPrefix(payload, "for=") {
 		want := payload[4:]
